@@ -159,10 +159,21 @@ pub fn not(vm: &mut Vm) -> Result<VCell, Error> {
 pub fn is_list(vm: &mut Vm) -> Result<VCell, Error> {
     pop_argc(vm, 1, Some(1), "list?")?;
     let mut rest = vm.heap.get(vm.stack.pop()?);
+    // `slow` follows `rest` at half its speed. On a circular list the two
+    // meet again, and a circular list is not a list.
+    let mut slow = rest.clone();
+    let mut advance_slow = false;
     loop {
         if !rest.is_pair() {
             return Ok(rest.is_nil().into());
         }
         rest = vm.heap.get(&rest.as_cdr()?);
+        if advance_slow {
+            slow = vm.heap.get(&slow.as_cdr()?);
+            if rest.is_pair() && rest.as_cdr()? == slow.as_cdr()? {
+                return Ok(false.into());
+            }
+        }
+        advance_slow = !advance_slow;
     }
 }
